@@ -1,6 +1,7 @@
 mod crash;
 mod dbx;
 mod enc;
+mod fault;
 mod hist;
 mod search;
 use vcore::Args;
@@ -10,6 +11,7 @@ fn main() {
     match args.cmd().as_str() {
         "hist" => hist::run(&args),
         "crash" => crash::run(&args),
+        "fault" => fault::run(&args),
         other => {
             eprintln!("unknown subcommand {other:?}");
             std::process::exit(2);
